@@ -92,6 +92,11 @@ def ser_call(c, endpoints, for_model):
         return ["X", b01(c[1])]
     if k in ("+", "-"):
         return [k, str(c[1])]
+    if k == "R":
+        # observer c[1] unregisters observer c[2] from inside its next callback. The builder only arms an observer that is
+        # registered BEFORE the target, right before a call whose first action is an event: iterating std::list, the
+        # target is then erased before it is reached - the same as remove_observer(c[2]) before that call (the model's view)
+        return ["-", str(c[2])] if for_model else ["R", str(c[1]), str(c[2])]
     if k == "M":
         return ["M", c[1]]
     if k == "Y":
